@@ -71,11 +71,12 @@ struct Snap {
   std::string sizes;
   size_t lab = 0, bnd = 0, rel = 0, fix = 0, adr = 0, nod = 0, cur = 0, off = 0;
   uint64_t hash = 0, bhash = 0;
+  int taint = 0;      // a bound label whose "offset" lies outside its section: DESIGN.md defect #18 (C03) stored a Fixup* there
   std::string dump;
   std::string text() const {
     char b[256];
-    snprintf(b, sizeof b, "sec=%s lab=%zu bnd=%zu rel=%zu fix=%zu adr=%zu nod=%zu cur=%zu off=%zu h=%llx bh=%llx", sizes.c_str(), lab, bnd, rel, fix, adr,
-             nod, cur, off, (unsigned long long)hash, (unsigned long long)bhash);
+    snprintf(b, sizeof b, "sec=%s lab=%zu bnd=%zu rel=%zu fix=%zu adr=%zu nod=%zu cur=%zu off=%zu h=%llx bh=%llx taint=%d", sizes.c_str(), lab, bnd, rel, fix, adr,
+             nod, cur, off, (unsigned long long)hash, (unsigned long long)bhash, taint);
     return b;
   }
 };
@@ -131,7 +132,12 @@ Snap snapshot(Side& s) {
     if (le.has_parent()) { snprintf(b, sizeof b, "p%u ", le.parent_id()); d += b; }
     if (le.is_bound()) {
       sn.bnd++;
-      snprintf(b, sizeof b, "B%u+%llu", le.section_id(), (unsigned long long)le.offset());
+      if (le.section_id() < c.section_count() && le.offset() > c.sections()[le.section_id()]->buffer_size()) {
+        sn.taint = 1;
+        snprintf(b, sizeof b, "B%u+OUTSIDE", le.section_id());
+      } else {
+        snprintf(b, sizeof b, "B%u+%llu", le.section_id(), (unsigned long long)le.offset());
+      }
       d += b;
     } else {
       dump_fixups(d, le.unresolved_fixups());
